@@ -4,6 +4,7 @@ package c18
 // ServerAuthHandler.HandleHandshake) of the mini-server.
 
 import (
+	"context"
 	"fmt"
 	"strings"
 	"testing"
@@ -11,6 +12,7 @@ import (
 
 	"pgregory.net/rapid"
 
+	"tunnox-core/internal/core/storage"
 	"tunnox-core/internal/packet"
 	"tunnox-core/internal/security"
 	"tunnox-core/verif/vkit"
@@ -24,7 +26,7 @@ type SrvCfg struct {
 }
 
 type SrvStep struct {
-	Op    string `json:"op"` // anon | login | unknown | wrong | nochallenge | bl-add | bl-rm | wl-add | wl-rm
+	Op    string `json:"op"` // anon | login | unknown | wrong | nochallenge | bl-add | bl-rm | wl-add | wl-rm | park | resume-good | resume-bad | restart
 	Addr  int    `json:"addr"`
 	Key   int    `json:"key,omitempty"` // list operations: index into srvKeys
 	AtMs  int    `json:"at_ms"`
@@ -52,13 +54,27 @@ func genSrv(t *rapid.T) SrvCase {
 	c.Cfg.Rate = rapid.SampledFrom([]int{2, 10, 40}).Draw(t, "rate")
 	c.Cfg.Burst = rapid.SampledFrom([]int{1, 3, 6}).Draw(t, "burst")
 	n := rapid.IntRange(5, 13).Draw(t, "nsteps")
-	ops := []string{"unknown", "unknown", "unknown", "wrong", "wrong", "nochallenge", "nochallenge", "login", "login", "login", "anon", "anon", "anon", "bl-add", "bl-add", "bl-rm", "wl-add", "wl-rm"}
+	ops := []string{"unknown", "unknown", "unknown", "wrong", "wrong", "nochallenge", "nochallenge", "login", "login", "login", "anon", "anon", "anon", "bl-add", "bl-add", "bl-rm", "wl-add", "wl-rm",
+		// park: phase one on a connection that is then kept with its pending challenge; resume-*: phase two on the oldest
+		// parked connection of the address (right / wrong response); restart: second server over the same storage
+		"park", "resume-good", "resume-good", "resume-bad", "restart"}
 	var bounds []int
 	T := 0
+	restarted := false
+	if rapid.Bool().Draw(t, "parkFirst") {
+		// directed: connections parked before anything else happens to the address
+		c.Steps = append(c.Steps, SrvStep{Op: "park", Addr: 0, AtMs: 0, N: rapid.IntRange(1, 3).Draw(t, "nparked")})
+	}
 	for i := 0; i < n && T < 1100; i++ {
 		s := SrvStep{Op: rapid.SampledFrom(ops).Draw(t, "op")}
 		if rapid.IntRange(0, 9).Draw(t, "addrSel") >= 8 {
 			s.Addr = 1
+		}
+		if s.Op == "restart" {
+			if restarted {
+				s.Op = "login"
+			}
+			restarted = true
 		}
 		T = avoid(T+rapid.SampledFrom(gapGrid).Draw(t, "gap"), bounds)
 		s.AtMs = T
@@ -66,6 +82,10 @@ func genSrv(t *rapid.T) SrvCase {
 		case "unknown", "wrong", "nochallenge":
 			s.N = rapid.SampledFrom([]int{1, 1, 2, c.Cfg.M, c.Cfg.M}).Draw(t, "n")
 			bounds = append(bounds, T+c.Cfg.WMs, T+c.Cfg.BanMs)
+		case "resume-bad":
+			bounds = append(bounds, T+c.Cfg.WMs, T+c.Cfg.BanMs)
+		case "park":
+			s.N = rapid.IntRange(1, 2).Draw(t, "n")
 		case "anon":
 			s.N = rapid.IntRange(1, c.Cfg.Burst+3).Draw(t, "n")
 		case "bl-add":
@@ -81,7 +101,7 @@ func genSrv(t *rapid.T) SrvCase {
 	}
 	// closing attempts with good credentials
 	T = avoid(T+rapid.SampledFrom([]int{0, 45, 185}).Draw(t, "tailGap"), bounds)
-	c.Steps = append(c.Steps, SrvStep{Op: rapid.SampledFrom([]string{"login", "anon"}).Draw(t, "tailOp"), Addr: 0, AtMs: T, N: 1})
+	c.Steps = append(c.Steps, SrvStep{Op: rapid.SampledFrom([]string{"login", "anon", "resume-good", "resume-good"}).Draw(t, "tailOp"), Addr: 0, AtMs: T, N: 1})
 	return c
 }
 
@@ -141,6 +161,13 @@ type srvWorld struct {
 	trace  []string
 	feats  map[string]int
 	failed bool
+	parked [][]parkedConn // per address: connections holding a pending challenge
+	suffix string         // appended to violation keys of the current call (root-cause region)
+}
+
+type parkedConn struct {
+	cl        *miniserver.Client
+	challenge string
 }
 
 func (w *srvWorld) now() time.Duration { return time.Since(w.start) }
@@ -181,6 +208,7 @@ func (w *srvWorld) callR(si int, addr int, cl *miniserver.Client, req *packet.Ha
 	fail := func(key, why string) {
 		detail := fmt.Sprintf("step %d %s from %s answered %q: %s | cfg m=%d p=%d window=%dms ban=%dms cleanup=%dms rate=%d burst=%d | trace: %s",
 			si, what, ip, kind, why, w.c.Cfg.M, w.c.Cfg.P, w.c.Cfg.WMs, w.c.Cfg.BanMs, w.c.Cfg.CleanupMs, w.c.Cfg.Rate, w.c.Cfg.Burst, strings.Join(w.trace, " ; "))
+		key += w.suffix
 		vkit.Violation(w.t, key, detail, Replay{Kind: "server", Srv: w.c})
 		vkit.Case("known:"+key, false, "")
 		w.failed = true
@@ -254,14 +282,35 @@ func (w *srvWorld) callR(si int, addr int, cl *miniserver.Client, req *packet.Ha
 }
 
 func runSrv(t vkit.TB, c SrvCase) {
-	srv, err := miniserver.New(miniserver.Options{
-		BruteForce: c.Cfg.real(),
-		IPRate:     &security.RateLimitConfig{Rate: c.Cfg.Rate, Burst: c.Cfg.Burst, TTL: 5 * time.Minute},
-	})
+	// the storage outlives a server: "restart" builds a second server (node-2) over it
+	sctx, scancel := context.WithCancel(context.Background())
+	defer scancel()
+	hc := &storage.HybridStorageConfig{CacheType: "memory", EnablePersistent: false, HybridConfig: storage.DefaultHybridConfig()}
+	hc.HybridConfig.EnablePersistent = false
+	st, err := storage.NewStorageFactory(sctx).CreateStorage(hc)
 	if err != nil {
-		t.Fatalf("miniserver: %v", err)
+		t.Fatalf("storage: %v", err)
 	}
-	defer srv.Close()
+	newServer := func(node string) *miniserver.Server {
+		srv, err := miniserver.New(miniserver.Options{
+			Storage:    st,
+			NodeID:     node,
+			BruteForce: c.Cfg.real(),
+			IPRate:     &security.RateLimitConfig{Rate: c.Cfg.Rate, Burst: c.Cfg.Burst, TTL: 5 * time.Minute},
+		})
+		if err != nil {
+			t.Fatalf("miniserver: %v", err)
+		}
+		return srv
+	}
+	srv := newServer("node-1")
+	var servers []*miniserver.Server
+	servers = append(servers, srv)
+	defer func() {
+		for _, s := range servers {
+			s.Close()
+		}
+	}()
 	// credentials of an existing client, registered from an unrelated address
 	setup, err := srv.Connect("10.99.0.1:4000")
 	if err != nil {
@@ -272,7 +321,7 @@ func runSrv(t vkit.TB, c SrvCase) {
 	}
 	setup.CloseByPeer()
 	w := &srvWorld{t: t, c: &c, srv: srv, id: setup.ClientID, secret: setup.Secret, lists: newIPMModel(), feats: map[string]int{},
-		undet: make([]string, len(srvAddrs)), anon: make([][]rateObs, len(srvAddrs))}
+		undet: make([]string, len(srvAddrs)), anon: make([][]rateObs, len(srvAddrs)), parked: make([][]parkedConn, len(srvAddrs))}
 	notes := map[string]int{}
 	for range srvAddrs {
 		w.bf = append(w.bf, newIPModel(c.Cfg.model(), notes))
@@ -296,23 +345,23 @@ func runSrv(t vkit.TB, c SrvCase) {
 		switch s.Op {
 		case "bl-add":
 			b := w.now()
-			if err := srv.IPM.AddToBlacklist(srvKeys[s.Key], ms(s.DurMs), "verif", "c18"); err != nil {
+			if err := w.srv.IPM.AddToBlacklist(srvKeys[s.Key], ms(s.DurMs), "verif", "c18"); err != nil {
 				t.Fatalf("AddToBlacklist: %v", err)
 			}
 			w.lists.addBlack(srvKeys[s.Key], ival{b, w.now()}, ms(s.DurMs))
 			w.trace = append(w.trace, fmt.Sprintf("%d:bl-add %s %dms @%v", si, srvKeys[s.Key], s.DurMs, b.Round(time.Microsecond)))
 		case "bl-rm":
-			srv.IPM.RemoveFromBlacklist(srvKeys[s.Key])
+			w.srv.IPM.RemoveFromBlacklist(srvKeys[s.Key])
 			w.lists.removeBlack(srvKeys[s.Key])
 			w.trace = append(w.trace, fmt.Sprintf("%d:bl-rm %s @%v", si, srvKeys[s.Key], w.now().Round(time.Microsecond)))
 		case "wl-add":
-			if err := srv.IPM.AddToWhitelist(srvKeys[s.Key], "verif", "c18"); err != nil {
+			if err := w.srv.IPM.AddToWhitelist(srvKeys[s.Key], "verif", "c18"); err != nil {
 				t.Fatalf("AddToWhitelist: %v", err)
 			}
 			w.lists.addWhite(srvKeys[s.Key])
 			w.trace = append(w.trace, fmt.Sprintf("%d:wl-add %s @%v", si, srvKeys[s.Key], w.now().Round(time.Microsecond)))
 		case "wl-rm":
-			srv.IPM.RemoveFromWhitelist(srvKeys[s.Key])
+			w.srv.IPM.RemoveFromWhitelist(srvKeys[s.Key])
 			w.lists.removeWhite(srvKeys[s.Key])
 			w.trace = append(w.trace, fmt.Sprintf("%d:wl-rm %s @%v", si, srvKeys[s.Key], w.now().Round(time.Microsecond)))
 		case "anon":
@@ -338,6 +387,70 @@ func runSrv(t vkit.TB, c SrvCase) {
 				req.ChallengeResponse = miniserver.ComputeResponse(w.secret, "never-issued-challenge")
 				_, cl := w.call(si, s.Addr, nil, req, false, "challenge response without a pending challenge")
 				open = append(open, cl)
+			}
+		case "restart":
+			// second node / restart over the same storage: lists and client credentials are persisted, bans,
+			// failure counters and token buckets are process state and start empty
+			for ai, obs := range w.anon {
+				if bad, detail := rateBound(obs, c.Cfg.Rate, c.Cfg.Burst); bad {
+					vkit.Violation(t, "C18/rate/anonymous-registrations-exceed-rate-and-burst/via-handshake", "address "+srvAddrs[ai]+": "+detail+" | trace: "+strings.Join(w.trace, " ; "), Replay{Kind: "server", Srv: &c})
+					vkit.Case("known:C18/rate/anonymous-registrations-exceed-rate-and-burst/via-handshake", false, "")
+					return
+				}
+				w.anon[ai] = nil
+			}
+			time.Sleep(3 * time.Millisecond) // asynchronous removals of the old process finish
+			w.srv = newServer("node-2")
+			servers = append(servers, w.srv)
+			w.lists.reload()
+			for ai := range w.bf {
+				w.bf[ai] = newIPModel(c.Cfg.model(), notes)
+				w.parked[ai] = nil
+			}
+			w.feats["restart"]++
+			w.trace = append(w.trace, fmt.Sprintf("%d:restart (second server over the same storage) @%v", si, w.now().Round(time.Microsecond)))
+		case "park":
+			for k := 0; k < n && !w.failed; k++ {
+				kind, r1, cl := w.callR(si, s.Addr, nil, base(w.id), true, "phase 1 on a connection that stays parked")
+				open = append(open, cl)
+				if kind == "challenge" && r1 != nil {
+					w.parked[s.Addr] = append(w.parked[s.Addr], parkedConn{cl, r1.Challenge})
+					w.feats["parked-connection"]++
+				}
+			}
+		case "resume-good", "resume-bad":
+			if len(w.parked[s.Addr]) == 0 {
+				w.feats["resume-without-parked-connection"]++
+				break
+			}
+			pc := w.parked[s.Addr][0]
+			w.parked[s.Addr] = w.parked[s.Addr][1:]
+			good := s.Op == "resume-good"
+			secret, what := w.secret, "phase 2 (valid response) on a parked connection"
+			if !good {
+				secret, what = "not-the-secret", "phase 2 (wrong response) on a parked connection"
+			}
+			req := base(w.id)
+			req.ChallengeResponse = miniserver.ComputeResponse(secret, pc.challenge)
+			w.suffix = "/parked-challenge-continuation"
+			kind2, _ := w.call(si, s.Addr, pc.cl, req, good, what)
+			w.suffix = ""
+			if w.failed {
+				break
+			}
+			switch kind2 {
+			case "banned", "blacklisted":
+				w.feats["refused:parked-phase-two-while-banned-or-blacklisted"]++
+			case "none":
+			default:
+				want2 := "success"
+				if !good {
+					want2 = "invalid"
+				}
+				if kind2 != want2 {
+					w.feats["unexpected-outcome:"+kind2]++
+					w.undet[s.Addr] = "parked phase 2 answered " + kind2
+				}
 			}
 		case "wrong", "login":
 			for k := 0; k < n && !w.failed; k++ {
@@ -396,7 +509,10 @@ func runSrv(t vkit.TB, c SrvCase) {
 	case w.feats["refused:banned"]+w.feats["refused:blacklisted"] > 0:
 		class = "srv:refusal"
 	}
-	vkit.Case(class, goodRefused > 0, srvSig(c))
+	if w.feats["refused:parked-phase-two-while-banned-or-blacklisted"] > 0 {
+		class = "srv:parked-phase-two-refused-while-banned-or-blacklisted"
+	}
+	vkit.Case(class, goodRefused > 0 || w.feats["refused:parked-phase-two-while-banned-or-blacklisted"] > 0, srvSig(c))
 	for k, v := range w.feats {
 		for i := 0; i < v; i++ {
 			vkit.Class("srv:" + k)
@@ -416,7 +532,7 @@ func runSrv(t vkit.TB, c SrvCase) {
 }
 
 func TestHandshake(t *testing.T) {
-	vkit.Check(t, 80, 1600, func(t *rapid.T) {
+	vkit.Check(t, 96, 1920, func(t *rapid.T) {
 		runSrv(t, genSrv(t))
 	})
 }
